@@ -214,6 +214,18 @@ def decide(prop: str, vres: dict, kani: dict, tier: str, seed: int, t0: float, m
                 undecided.append('proof hint no longer verifies in %s: %s' % (f.get('fn'), (f.get('site_text') or '')[:100]))
             continue
         ps, why = failure_props(f, fi)
+        raw_ = (fi or {}).get('raw_transfers') or []
+        if prop == 'C10' and raw_ and f['class'] in ('post', 'inv-end', 'inv-init', 'assert') and prop not in ps:
+            # the function hands a buffer to Read::read / Write::write, which may legally transfer less than asked (prelude: weak
+            # contract), and one of its output / advance obligations no longer holds. Outside a loop nothing retries the
+            # shortfall: short transfers are not transparent (C10). Inside a loop it may be a retry loop that merely lacks an
+            # invariant: not decidable here.
+            if any(not x['in_loop'] for x in raw_):
+                ps = set(ps) | {'C10'}
+                f = dict(f, label=(f.get('label') or f['class']) + ' [short transfer of ' + '/'.join(sorted(set('.%s()' % x['name'] for x in raw_ if not x['in_loop']))) + ' not retried]')
+            else:
+                undecided.append('%s uses a raw short-transfer primitive inside a loop and %s no longer verifies' % (f.get('fn'), obligation_name(f)))
+                continue
         if prop not in ps:
             continue
         if f['class'] == 'pre' and why == 'label' and f.get('fn') not in fns_serving:
